@@ -13,6 +13,10 @@ import json
 from .. import kernel
 from ..kernel import Violation, SimHang
 
+SCRATCH = __import__('os').environ.get('VERIF_SCRATCH',
+                                       '/var/tmp/desper-verif')
+_counter = [0]
+
 Counter = collections.Counter
 OP_BUDGET = 40000
 ALPHA = ['a', 'b', 'c', 'x1', 'a b', '', 'cafe\u0301', 'caf\u00e9']
@@ -65,6 +69,22 @@ class HState:
         self.wrapper = None
 
 
+class WeakVal:
+    """A loaded value nobody but the handle keeps (the model remembers it
+    through a weak reference only)."""
+
+
+class _WeakBox:
+    def __init__(self, v):
+        import weakref
+        self.ref = weakref.ref(v)
+
+
+def same(v, x):
+    """v is the object the model remembers as x."""
+    return (x.ref() is v) if isinstance(x, _WeakBox) else (v is x)
+
+
 class Wrapped:
     """What a handle whose class overrides __call__ hands out: the cached
     resource inside a (per value unique) envelope."""
@@ -103,7 +123,7 @@ class EqRaises:
 
 VCODES = ['none', 'zero', 'fzero', 'empty_str', 'empty_tuple', 'list',
           'falsy', 'bool_raises', 'eq_true', 'eq_false', 'eq_raises', 'obj',
-          'world', 'ellipsis', 'notimpl']
+          'world', 'ellipsis', 'notimpl', 'weakobj', 'weakobj']
 FALSY = {'none', 'zero', 'fzero', 'empty_str', 'empty_tuple', 'list',
          'falsy', 'bool_raises'}
 
@@ -173,10 +193,81 @@ class Interp:
         self.snaps = {}                     # snap id -> (static, model)
         self.loop = d.SimpleLoop()
         self.loop_cur = None
+        self.scratch = None
         self.flags = set()
 
     def fail(self, props, kind, detail=''):
         raise Violation(props, kind, detail)
+
+    def file_handle(self, hid):
+        """A real WorldFromFileHandle on a real (empty) world file."""
+        import os
+        d, it = self.desper, self
+        if self.scratch is None:
+            _counter[0] += 1
+            self.scratch = os.path.join(f'{SCRATCH}-{os.getpid()}',
+                                        f'rt{_counter[0]}')
+            os.makedirs(self.scratch)
+        path = os.path.join(self.scratch, f'w{hid}.json')
+        with open(path, 'w') as f:
+            f.write('{}')
+        os.utime(path, ns=(10 ** 18, 10 ** 18))
+
+        class FileWorld(d.WorldFromFileHandle):
+            def __init__(self, filename):
+                super().__init__(filename)
+                self.hid = hid
+
+            def load(self):
+                return it.on_load(self.hid)
+        self.probes['world_file_handle'] += 1
+        return FileWorld(path)
+
+    def op_touch(self, op):
+        """The file behind a WorldFromFileHandle is rewritten (new mtime)
+        between two accesses: no reload without clear()."""
+        import os
+        st = self.h.get(op[1])
+        if st is None or st.vcode != 'fileworld':
+            return 'skip'
+        self.touched = getattr(self, 'touched', 0) + 1
+        t = 10 ** 18 + self.touched * 10 ** 10
+        with open(st.obj.filename, 'w') as f:
+            f.write('{"entities": []}')
+        os.utime(st.obj.filename, ns=(t, t))
+        self.probes['world_file_rewritten'] += 1
+
+    def op_deep(self, op):
+        """"keys of any depth": a key of n components on a fresh map - set,
+        [], get and the step-by-step walk tell the same story."""
+        n = op[1]
+        d = self.desper
+        m = d.ResourceMap()
+
+        class H(d.Handle):
+            def load(self):
+                return ('deep', n)
+        h = H()
+        key = SPLIT.join(['d'] * n)
+        try:
+            with kernel.budget(OP_BUDGET + 40 * n):
+                m[key] = h
+                a = m[key]
+                b = m.get(key)
+                cur = m
+                for _ in range(n - 1):
+                    cur = cur['d']
+                c = cur['d']
+                miss = m.get(key + SPLIT + 'x', 'default')
+        except SimHang as e:
+            self.fail('C11', 'hang', f'key of {n} components: {e}')
+        except Exception as e:
+            self.fail('C11', 'paths_disagree', f'a key of {n} components: '
+                      f'{type(e).__name__}: {str(e)[:80]}')
+        if a != ('deep', n) or b is not h or c is not a or miss != 'default':
+            self.fail('C11', 'paths_disagree', f'a key of {n} components: '
+                      f'[] -> {a!r}, get -> {b!r}, walk -> {c!r}')
+        self.probes['very_deep_key'] += 1
 
     # ---- loads
     def make_value(self, vcode):
@@ -187,6 +278,7 @@ class Interp:
                 'falsy': Falsy, 'bool_raises': BoolRaises,
                 'eq_true': EqTrue, 'eq_false': EqFalse,
                 'eq_raises': EqRaises, 'obj': object,
+                'weakobj': WeakVal,
                 'ellipsis': lambda: Ellipsis,   # singletons a cache might
                 'notimpl': lambda: NotImplemented,  # use as "nothing yet"
                 'world': d.World, 'via': object,
@@ -216,10 +308,13 @@ class Interp:
             v = object()
         elif st.vcode == 'via':
             v = self.nested_load(st)
+        elif st.vcode == 'fileworld':
+            # a world read from a (real) file by the real WorldFromFileHandle
+            v = self.desper.WorldFromFileHandle.load(st.obj)
         else:
             v = self.make_value(st.vcode)
         st.completed += 1
-        st.last = v
+        st.last = _WeakBox(v) if st.vcode == 'weakobj' else v
         return v
 
     def nested_load(self, st):
@@ -280,7 +375,7 @@ class Interp:
                 self.fail('C12', 'loaded_twice', f'h{hid} loaded again via '
                           f'{how} ({n} extra load(s)) in the same epoch '
                           f'(value code {st.vcode})')
-            if v is not st.value:
+            if not same(v, st.value):
                 self.fail(('C12', 'C11', 'C17'), 'identity', f'access to '
                           f'h{hid} via {how} returned a different object '
                           f'than the other accesses of this epoch')
@@ -293,10 +388,11 @@ class Interp:
                 self.fail('C12', 'loaded_twice' if n > 1 else 'not_loaded',
                           f'first access to h{hid} via {how} in this epoch '
                           f'performed {n} loads')
-            if v is not st.last:
+            if not same(v, st.last):
                 self.fail('C12', 'identity', f'access to h{hid} via {how} '
                           f'did not return what load() produced')
-            st.loaded, st.value = True, v
+            st.loaded, st.value = True, (st.last if isinstance(
+                st.last, _WeakBox) else v)
             if getattr(st, 'failed_once', False):
                 self.probes['load_failed_then_retry'] += 1
         if not st.obj.cached:
@@ -355,8 +451,11 @@ class Interp:
             st.via = spec.get('via')
             st.target = spec.get('target')
             st.wrap = bool(spec.get('wrap'))
-            st.obj = (self.WrappingHandle if st.wrap
-                      else self.CountingHandle)(hid)
+            if st.vcode == 'fileworld':
+                st.obj = self.file_handle(hid)
+            else:
+                st.obj = (self.WrappingHandle if st.wrap
+                          else self.CountingHandle)(hid)
             self.h[hid] = st
             return ('handle', st)
         mid = spec['id']
@@ -930,6 +1029,15 @@ def execute(scenario, prop, tolerate=frozenset()):
     except Violation as v:
         violation = v.to_json()
         violation['op'] = idx
+    finally:
+        if it.scratch is not None:
+            import os
+            import shutil
+            shutil.rmtree(it.scratch, ignore_errors=True)
+            try:
+                os.rmdir(os.path.dirname(it.scratch))
+            except OSError:
+                pass
     it.stats['steps'] = kernel.StepBudget.total - s0
     return {'violation': violation, 'digest': it.trace.digest(),
             'nontrivial': it.nontrivial(), 'probes': dict(it.probes),
@@ -944,7 +1052,8 @@ WEIGHTS = {
     'C11': dict(set=6, clear=1, layer=1.2, call=.4, getitem=.5,
                 clear_handle=.3, snap=.2, snap_check=.1),
     'C12': dict(set=3, clear=.3, layer=.3, call=2, getitem=3.5,
-                clear_handle=1.6, loop_switch=.8, snap=.7, snap_check=1.2),
+                clear_handle=1.6, loop_switch=.8, snap=.7, snap_check=1.2,
+                touch=.5),
     'C17': dict(set=4.5, clear=.5, layer=1, call=.5, getitem=.3,
                 clear_handle=.5, snap=2, snap_check=2),
 }
@@ -959,6 +1068,7 @@ class GenState:
         self.mpaths = [[]]
         self.snaps = 0
         self.pending_clearer = None
+        self.fileworlds = []
         self.all_ids = []
 
     def new_id(self):
@@ -969,7 +1079,7 @@ class GenState:
         rng = self.rng
         hid = self.new_id()
         if self.prop == 'C12':
-            val = rng.choice(VCODES + ['inner', 'selfh']) \
+            val = rng.choice(VCODES + ['inner', 'selfh', 'fileworld']) \
                 if rng.random() < .8 else 'obj'
             fails = [rng.choice([1, 2])] if rng.random() < .15 else []
         else:
@@ -993,10 +1103,13 @@ class GenState:
             spec['val'] = val = 'via'
             spec['via'] = rng.choice(self.hids)
         self.hids.append(hid)
+        if val == 'fileworld':
+            spec['fails'] = []
+            self.fileworlds.append(hid)
         if val == 'world':
             self.worlds.append(hid)
-        elif val not in ('via', 'clearer', 'inner', 'selfh') \
-                and rng.random() < .1:
+        elif val not in ('via', 'clearer', 'inner', 'selfh', 'fileworld',
+                         'weakobj') and rng.random() < .1:
             spec['wrap'] = True
         return spec
 
@@ -1082,12 +1195,17 @@ def generate(prop, run_seed, tier='quick', tolerate=frozenset()):
         elif kind == 'loop_switch' and gs.worlds:
             ops.append(['loop_switch', rng.choice(gs.worlds),
                         rng.random() < .4, rng.random() < .4])
+        elif kind == 'touch' and gs.fileworlds:
+            ops.append(['touch', rng.choice(gs.fileworlds)])
         elif kind == 'snap':
             gs.snaps += 1
             ops.append(['snap', gs.snaps, mpath if rng.random() < .5 else []])
         elif kind == 'snap_check' and gs.snaps:
             ops.append(['snap_check', rng.randint(1, gs.snaps),
                         rng.random() < .5])
+    if prop == 'C11' and crng.random() < .02:
+        ops.insert(crng.randint(0, len(ops)),
+                   ['deep', crng.choice([200, 950, 1200, 3000])])
     heq = crng.choice([None, None, None, None, 'equal', 'unhashable']) \
         if prop == 'C11' else crng.choice([None] * 6 + ['equal'])
     return {'format': 1, 'engine': 'restree',
@@ -1161,7 +1279,8 @@ PROBES = {
     'C11': ['implicit_intermediate_created', 'handle_replaced_by_map',
             'map_replaced_by_handle', 'layered_name_reassigned',
             'clear_layered', 'assign_into_submap', 'empty_key_component',
-            'displaced_object_reinserted', 'map_subclass_instance'],
+            'displaced_object_reinserted', 'map_subclass_instance',
+            'very_deep_key'],
     'C12': ['falsy_value_reaccessed', 'path.call', 'path.getitem_root',
             'path.getitem_sub', 'path.getitem_chain', 'path.get_call',
             'path.static_attr', 'path.static_item', 'path.static_get',
@@ -1169,7 +1288,8 @@ PROBES = {
             'clear_from_inside_a_load', 'handle_valued_resource',
             'eq_raises_value', 'load_failed',
             'load_failed_then_retry', 'clear_between_accesses',
-            'handle_overriding_call', 'handle_under_two_names'],
+            'handle_overriding_call', 'handle_under_two_names',
+            'world_file_handle', 'world_file_rewritten'],
     'C17': ['non_identifier_name', 'layered_snapshot',
             'nested_setattr_rejected', 'setattr_rejected',
             'snapshot_then_mutate_map', 'handle_overriding_call',
